@@ -1,5 +1,10 @@
 import BiotiteModel.Proofs.C19Cluster
+import BiotiteModel.Proofs.C19NJ
 import BiotiteModel.Proofs.C19Tree
+import BiotiteModel.Proofs.C19Newick
+import BiotiteModel.Proofs.C19Dist
+import BiotiteModel.Proofs.C19Binary
+import BiotiteModel.Proofs.C19Upgma
 import BiotiteModel.Gen.C19
 /-!
 # C19 — property theorems (trees contain every taxon once and keep distances)
@@ -26,6 +31,35 @@ theorem C19_upgma_leaves (n : Nat) (D : Nat → Nat → Rat) (t : T Rat) (h : up
     t.leaves.Perm (List.range n) :=
   upgma_leaves n D t h
 
+/-- **UPGMA: merge heights are half the average-linkage distance.**  For every accepted symmetric
+matrix (ties included) the returned tree is `Good D`: every intermediate node has two children,
+hangs them at `height − height(child)`, and its height is half the mean of the *original* distances
+over all leaf pairs of the two merged clusters (`avg D`).  Loop invariant: the matrix entry of two
+live clusters is the mean of the original distances over their leaf pairs (`UAInv.link`). -/
+theorem C19_upgma_average_linkage (n : Nat) (D : Nat → Nat → Rat) (hsym : ∀ a b, D a b = D b a)
+    (t : T Rat) (h : upgma n D = .ok t) : ∃ height, Good D t height :=
+  upgma_good n D hsym t h
+
+/-- **UPGMA trees are ultrametric**: every leaf is at the same depth (the root height), and — by
+`Good.depth` at every node — every leaf under a node is at distance `height(node)`; no branch length
+is negative (merge heights are monotone). -/
+theorem C19_upgma_ultrametric (n : Nat) (D : Nat → Nat → Rat) (hsym : ∀ a b, D a b = D b a)
+    (t : T Rat) (h : upgma n D = .ok t) :
+    (∃ height, Good D t height ∧ ∀ r ∈ t.rows, r.1 = height) ∧ t.NonNeg := by
+  obtain ⟨height, hg⟩ := upgma_good n D hsym t h
+  exact ⟨⟨height, hg, Good.depth hg⟩, upgma_nonneg n D hsym t h⟩
+
+/-- In a `Good` tree every leaf below a node of height `h` is at depth `h` (used at every node). -/
+theorem C19_good_depth (D : Nat → Nat → Rat) (t : T Rat) (h : Rat) (hg : Good D t h) :
+    ∀ r ∈ t.rows, r.1 = h :=
+  Good.depth hg
+
+/-- **Neighbour joining: every input index is exactly one leaf** (merge loop + final three-way
+join), for every accepted matrix (`n ≥ 4`, any entries, ties included). -/
+theorem C19_nj_leaves (n : Nat) (D : Nat → Nat → Rat) (t : T Rat) (h : neighborJoining n D = .ok t) :
+    t.leaves.Perm (List.range n) :=
+  nj_leaves n D t h
+
 /-- The minimum search returns a live pair `j < i < n` whose entry is minimal among all live
 pairs (first such pair in scan order because the comparison is strict). -/
 theorem C19_scan_min (val : Nat → Nat → Rat) (cl : Nat → Bool) (n : Nat) (m : Rat) (i j : Nat)
@@ -45,6 +79,52 @@ theorem C19_lca (p q : List Nat) :
       ∀ r, r <+: p → r <+: q → r <+: commonPrefix p q :=
   ⟨lca_eq p q, commonPrefix_prefix_left p q, commonPrefix_prefix_right p q,
    fun r => prefix_commonPrefix r p q⟩
+
+/-- **`distance_to` / `get_distance` = explicit path sum.**  For two nodes `p`, `q` of one tree
+(any arity), with `c` their lowest common ancestor: the result of the two upward walks is the sum of
+the branch lengths walking *down* from `c` to `p` plus those from `c` to `q` (`downLen`, defined by
+recursion on the tree, independent of parents/`_distance` look-ups); with `topological` every edge
+counts 1. -/
+theorem C19_distance_path_sum (t : T Rat) (topo : Bool) (p q : List Nat)
+    (hp : (t.sub? p).isSome) (hq : (t.sub? q).isSome) :
+    ∃ u x y, t.sub? (commonPrefix p q) = some u ∧
+      downLen topo u (p.drop (commonPrefix p q).length) = some x ∧
+      downLen topo u (q.drop (commonPrefix p q).length) = some y ∧
+      distanceTo t topo p q = .ok (x + y) :=
+  distanceTo_path_sum t topo p q hp hq
+
+/-- **`as_binary(Tree)` keeps all leaf-to-leaf distances.**  On every well-formed tree `Tree()`
+accepts it succeeds; the result is binary, has the same leaves in the same depth-first order, and
+the same upper-triangular leaf-to-leaf distance matrix (`T.rows`: for each leaf the distances to all
+later leaves, defined compositionally as depth-below-the-common-parent + depth-below-the-common-
+parent). -/
+theorem C19_binary_preserves_distances (t : T Rat) (hwf : t.WF = true) (ht : mkTree t = .ok t) :
+    ∃ b, asBinary t = .ok b ∧ b.isBin = true ∧ b.leaves = t.leaves ∧
+      b.rows.map (·.2) = t.rows.map (·.2) :=
+  asBinary_spec t hwf ht
+
+/-- **Newick round trip.**  For every well-formed tree of any arity (one-child nodes included)
+that `Tree()` accepts, every branch-length codec whose tokens read back (`float(repr(x)) == x`) and
+contain no Newick punctuation or whitespace, labels `None` or `LabelsOk` (distinct, non-empty, none
+of `, : ; ( )`, no whitespace — the last two are forced, see the `_defect` theorems), with or
+without distances: `Tree.to_newick` succeeds, and `Tree.from_newick` applied to *any* string that
+differs from the written one only by injected whitespace returns the tree (all distances `zero`
+when they were not written). -/
+theorem C19_newick_roundtrip {δ : Type} (C : Codec δ) (labels : Option (List (List Char))) (inc : Bool)
+    (t : T δ) (hwf : t.WF = true) (hl : LabelsOk labels t) (ht : mkTree t = .ok t) :
+    ∃ s, treeToNewick labels inc C.showD C.zero t = .ok s ∧
+      ∀ s' : List Char, s'.filter (fun c => !isWs c) = s →
+        treeFromNewick labels C.parseD C.zero s' = .ok (if inc then t else t.erase C.zero) :=
+  newick_roundtrip C labels inc t hwf hl ht
+
+/-- The same at `TreeNode` level (`TreeNode.to_newick` / `TreeNode.from_newick`), which also
+returns the node's own distance. -/
+theorem C19_newick_roundtrip_node {δ : Type} (C : Codec δ) (labels : Option (List (List Char)))
+    (inc : Bool) (t : T δ) (e : δ) (hwf : t.WF = true) (hl : LabelsOk labels t) :
+    ∃ s, t.toNewick labels inc C.showD e = .ok s ∧
+      ∀ s' : List Char, s'.filter (fun c => !isWs c) = s →
+        fromNewick labels C.parseD C.zero s' = .ok (if inc then (t, e) else (t.erase C.zero, C.zero)) :=
+  fromNewick_toNewick C labels inc t e hwf hl
 
 /-! ## Defects of the unchanged code (negations of the full-strength statements, with witnesses
 replayed on the implementation; see known_findings.d/C19.json) -/
@@ -78,11 +158,57 @@ theorem C19_as_binary_node_defect (t n : T Rat) : asBinaryNode t ≠ .node n := 
 def exampleD : Nat → Nat → Rat := fun i j => if i = j then 0 else if i + j = 1 then 2 else 4
 example : allcloseSym 3 exampleD = true ∧ anyNegative 3 exampleD = false := by decide +kernel
 example : ((upgmaLoop 3 3 (UState.init exampleD)).nd 2).leaves = [2, 1, 0] := by decide +kernel
+/-- A 4×4 additive matrix (quartet `01|23`): accepted by NJ, the loop returns a tree. -/
+def exampleD4 : Nat → Nat → Rat := fun i j =>
+  if i = j then 0 else if i + j = 1 then 2 else if i + j = 5 then 2 else 4
+example : allcloseSym 4 exampleD4 = true ∧ anyNegative 4 exampleD4 = false ∧
+    (njLoop 4 4 (NState.init 4 exampleD4)).map T.leaves = some [2, 1, 0, 3] := by decide +kernel
+example : ∀ a b, exampleD a b = exampleD b a := by
+  intro a b; unfold exampleD
+  by_cases h : a = b
+  · subst h; rfl
+  · have h' : ¬ b = a := fun e => h e.symm
+    simp [h, h', Nat.add_comm]
+example : Good exampleD (.node (.cons 2 (.leaf 2) (.cons 1 (.node (.cons 1 (.leaf 1) (.cons 1 (.leaf 0) .nil))) .nil))) 2 := by
+  refine ⟨0, 1, rfl, ⟨0, 0, rfl, rfl, by norm_num, by norm_num, ?_⟩, by norm_num, by norm_num, ?_⟩
+  · simp [avg, pairSum, T.leaves, F.leaves, exampleD]
+  · simp [avg, pairSum, T.leaves, F.leaves, exampleD]; norm_num
 example : scanMin exampleD (fun _ => false) 3 = some (2, 1, 0) := by decide +kernel
 example : (T.node (.cons (1 : Rat) (.leaf 2) (.cons 1 (.node (.cons 1 (.leaf 1) (.cons 1 (.leaf 0) .nil))) .nil))).leaves
     = [2, 1, 0] := by decide
 example : (T.node (.cons (1 : Rat) (.leaf 2) (.cons 1 (.node (.cons 1 (.leaf 1) .nil)) .nil))).WF = true := by decide
 example : lca [1, 0, 2] [1, 3] = some [1] := by decide
+
+/-- Distances between the leaves of a tree with a three-child and a one-child node, and its
+binary form. -/
+def exampleQ : T Rat := .node (.cons 7 (.node (.cons 1 (.leaf 2) (.cons 2 (.leaf 0) (.cons 3 (.leaf 3) .nil))))
+  (.cons 0 (.node (.cons 5 (.leaf 1) .nil)) .nil))
+example : exampleQ.WF = true ∧ (T.sub? exampleQ [0, 2]).isSome ∧ (T.sub? exampleQ [1, 0]).isSome ∧
+    commonPrefix [0, 2] [1, 0] = [] := by decide
+example : (exampleQ.rows.map (·.2)).map (·.length) = [3, 2, 1, 0] ∧
+    ((exampleQ.bin 0).1).leaves = [2, 0, 3, 1] ∧ ((exampleQ.bin 0).1).isBin = true := by decide +kernel
+
+/-- A codec meeting the hypotheses of the round trip: natural numbers in decimal. -/
+def natCodec : Codec Nat where
+  showD n := (toString n).toList
+  parseD s := (String.ofList s).toNat?
+  zero := 0
+  parse_show n := by rw [String.ofList_toList]; exact Nat.toNat?_repr n
+  clean n c hc := by
+    have : (toString n).toList = Nat.toDigits 10 n := Nat.toList_repr
+    rw [this] at hc
+    exact cleanC_of_isDigit (Nat.isDigit_of_mem_toDigits (by decide) (by decide) hc)
+
+/-- A tree with a three-child and a one-child node. -/
+def exampleT : T Nat := .node (.cons 7 (.node (.cons 1 (.leaf 2) (.cons 2 (.leaf 0) (.cons 3 (.leaf 3) .nil))))
+  (.cons 0 (.node (.cons 5 (.leaf 1) .nil)) .nil))
+/-- The hypotheses of `C19_newick_roundtrip` hold for it with unusual labels (and with `None`). -/
+example : exampleT.WF = true ∧ mkTree exampleT = .ok exampleT ∧
+    LabelsOk (some ["Homo_sapiens".toList, "1e5".toList, "nan".toList, "'x'".toList]) exampleT ∧
+    LabelsOk none exampleT := by
+  refine ⟨by decide, by decide, ?_, trivial⟩
+  simp only [LabelsOk]
+  decide +kernel
 example : treeFromNewick (some ["a".toList, "b".toList, "c".toList, "d".toList]) (fun _ => (none : Option Unit)) ()
     " ( (a ,b),c , (d)) ; ".toList =
     .ok (.node (.cons () (.node (.cons () (.leaf 0) (.cons () (.leaf 1) .nil)))
